@@ -296,22 +296,35 @@ Proof.
 Qed.
 
 (* ---- helpers for OPTIONAL ---- *)
-Definition is_true_const (e : expr) : bool := match e with ECon t => N.eqb t 21 | _ => false end.
-Definition lj_expr_ok (a b : alg) (e : expr) : bool :=
-  is_true_const e || (expr_safe e && subsetv (evars e) (cert a ++ cert b)).
+Definition dom_in (c : sol) (pushed : list var) : Prop := forall v, lookup v c <> None -> In v pushed.
 
-Lemma lj_expr_agree ds g a b e m1 full m2 :
-  lj_expr_ok a b e = true ->
-  (forall w, In w (evars e) -> lookup w m1 = lookup w m2) ->
-  (forall w, In w (cert a ++ cert b) -> lookup w m2 <> None) ->
-  ebv (expr_td ds g m1 full e) = ebv (expr_bu ds g m2 e).
+Lemma dom_in_nil c : dom_in c [] -> c = [].
 Proof.
-  intros Ok H Bd. unfold lj_expr_ok in Ok. apply orb_true_iff in Ok as [T|S].
-  - destruct e; try discriminate. reflexivity.
-  - apply andb_true_iff in S as [S Sub]. rewrite subsetv_in in Sub.
-    destruct (expr_safe_agree ds g full e m1 m2 S) as [b0 [T B]].
-    + intros w Iw. split; [now apply H|apply Bd, Sub, Iw].
-    + now rewrite T, B.
+  destruct c as [|[v t] r]; [reflexivity|]. intros D. exfalso. apply (D v).
+  cbn. rewrite N.eqb_refl. discriminate.
+Qed.
+
+(* what rdflib's forget(ctx, _except) shows of a context-extended solution is
+   what the bottom-up solution itself binds - under [vis_ok], the negation of
+   the trigger of finding F-C04-7 *)
+Lemma vis_lookup ds pushed exc q e g c m :
+  shape q = true -> vis_ok pushed exc q e = true -> dom_in c pushed ->
+  In m (eval_bu ds g q) -> sol_wf m = true ->
+  forall v, In v (evars e) -> lookup v (forget (merge c m) c exc) = lookup v m.
+Proof.
+  intros S V Dc I Wm v Iv. unfold forget. rewrite lookup_restrict, lookup_merge by exact Wm.
+  destruct (lookup v c) as [u|] eqn:Lc.
+  - unfold vis_ok in V. rewrite forallb_forall in V.
+    assert (Ip : In v (inter (evars e) pushed)).
+    { unfold inter. apply filter_In. split; [exact Iv|]. apply memv_in, Dc. congruence. }
+    specialize (V v Ip). rewrite orb_false_r. apply orb_true_iff in V as [V|V].
+    + apply andb_true_iff in V as [V1 V2]. rewrite V1. apply memv_in in V2.
+      pose proof (cert_sound ds q S g m v I V2). destruct (lookup v m); [reflexivity|congruence].
+    + apply andb_true_iff in V as [V1 V2]. apply negb_true_iff in V1, V2. rewrite V1.
+      destruct (lookup v m) eqn:Lm; [|reflexivity].
+      assert (In v (maybe q)) by (apply (maybe_sound ds q S g m v I); congruence).
+      apply memv_in in H. congruence.
+  - rewrite orb_true_r. destruct (lookup v m); reflexivity.
 Qed.
 
 Lemma remember_eq c x vs :
@@ -329,30 +342,28 @@ Proof.
 Qed.
 
 (* ---- the fragment ---- *)
-Definition filter_ok (nis : bool) (fv : option (list var)) (e : expr) (q : alg) : bool :=
-  expr_safe e && subsetv (evars e) (cert q)
-  && (nis || match fv with Some l => subsetv (evars e) l | None => false end).
+(* FILTER: an expression without EXISTS and without a literal-kind question
+   ([expr_ok]); what rdflib shows it of the context is what the algebra gives it
+   ([vis_ok] = the negation of the trigger of finding F-C04-7).  Errors allowed. *)
+Definition filter_ok (pushed : list var) (nis : bool) (fv : option (list var)) (e : expr) (q : alg) : bool :=
+  negb nis && expr_ok e && vis_ok pushed fv q e.
 
-(* BIND: the target is new (finding F-C04-1), the expression is an atom or an
-   error-free boolean expression over variables its pattern certainly binds *)
+(* BIND: the target is new (negation of the trigger of F-C04-1), expression as for FILTER *)
 Definition extend_ok (pushed : list var) (xv : option (list var)) (q : alg) (v : var) (e : expr) : bool :=
-  negb (memv v pushed) && negb (memv v (maybe q))
-  && (atom e || expr_safe e) && subsetv (evars e) (cert q)
-  && match xv with Some l => subsetv (evars e) l | None => false end.
+  negb (memv v pushed) && negb (memv v (maybe q)) && expr_ok e && vis_ok pushed xv q e.
 
 (* MINUS: the negation of the trigger of finding F-C04-2 *)
 Definition minus_ok (pushed : list var) (a b : alg) : bool :=
   negb (nonempty pushed)
   || (subsetv (inter (allvars b) pushed) (cert a) && nonempty (inter (cert a) (cert b))).
 
-(* OPTIONAL: the negations of the triggers of findings F-C04-5 and F-C04-6 (F-C04-4
-   cannot occur: no sub-SELECT in the fragment), over an absent filter or an
-   error-free one whose variables the two sides certainly bind *)
+(* OPTIONAL: the negations of the triggers of findings F-C04-5 and F-C04-6
+   (F-C04-4 cannot occur: no sub-SELECT in the fragment), filter as for FILTER *)
 Definition leftjoin_ok (pushed : list var) (pv : option (list var)) (a b : alg) (e : expr) : bool :=
-  lj_expr_ok a b e && negb (nonempty (inter (evars e) pushed))
+  expr_ok e && negb (nonempty (inter (inter (evars e) pushed) (maybe a ++ maybe b)))
   && match pv with
      | Some vs => subsetv (maybe a) vs
-                  && (negb (nonempty pushed) || (subsetv (inter vs pushed) (cert a) && nonempty (cert a)))
+                  && (negb (nonempty pushed) || subsetv (inter vs pushed) (cert a))
      | None => negb (nonempty pushed)
      end.
 
@@ -368,9 +379,8 @@ Fixpoint frag (names : list term) (pushed : list var) (p : alg) : bool :=
   | Join lz a b =>
       frag names pushed a && frag names (if lz then pushed ++ maybe a else pushed) b
       && (lz || hash_ok pushed b)
-  | Filter nis fv e q => filter_ok nis fv e q && frag names pushed q
-  | Graph (Tm t) q => (existsb (N.eqb t) names || needs_triple q) && frag names pushed q
-  | Graph (Vr v) q => (negb (memv v pushed) || needs_triple q) && frag names pushed q
+  | Filter nis fv e q => filter_ok pushed nis fv e q && frag names pushed q
+  | Graph _ q => frag names pushed q
   | _ => false
   end.
 
@@ -388,15 +398,7 @@ Proof.
     rewrite (IHp1 _ F1), (IHp2 _ F2). reflexivity.
   - apply andb_true_iff in F as [_ F]. eauto.
   - exact F.
-  - destruct g; apply andb_true_iff in F as [_ F]; eauto.
-Qed.
-
-Definition dom_in (c : sol) (pushed : list var) : Prop := forall v, lookup v c <> None -> In v pushed.
-
-Lemma dom_in_nil c : dom_in c [] -> c = [].
-Proof.
-  destruct c as [|[v t] r]; [reflexivity|]. intros D. exfalso. apply (D v).
-  cbn. rewrite N.eqb_refl. discriminate.
+  - eauto.
 Qed.
 
 Section PD.
@@ -450,11 +452,11 @@ Section PD.
       apply andb_true_iff in F as [F12 F2]. apply andb_true_iff in F12 as [Lo F1].
       unfold leftjoin_ok in Lo. apply andb_true_iff in Lo as [Lo Pv]. apply andb_true_iff in Lo as [Eo Ep].
       apply negb_true_iff in Ep.
-      assert (Enp : forall w, In w (evars e) -> lookup w c = None).
-      { intros w Iw. destruct (lookup w c) eqn:L; [|reflexivity]. exfalso.
-        assert (In w (inter (evars e) pushed)).
-        { unfold inter. apply filter_In. split; [exact Iw|]. apply memv_in, Dc. congruence. }
-        destruct (inter (evars e) pushed); [destruct H|discriminate]. }
+      assert (Enp : forall w, In w (evars e) -> lookup w c <> None -> ~ In w (maybe p1 ++ maybe p2)).
+      { intros w Iw Lc Im.
+        assert (In w (inter (inter (evars e) pushed) (maybe p1 ++ maybe p2))).
+        { unfold inter. apply filter_In. split; [apply filter_In; split; [exact Iw|apply memv_in, Dc, Lc]|now apply memv_in]. }
+        destruct (inter (inter (evars e) pushed) (maybe p1 ++ maybe p2)); [destruct H|discriminate]. }
       pose proof (frag_shape _ _ _ F1) as S1. pose proof (frag_shape _ _ _ F2) as S2.
       cbn [eval_td eval_bu].
       set (A := eval_bu ds g0 p1). set (B := eval_bu ds g0 p2).
@@ -475,45 +477,32 @@ Section PD.
           destruct (lookup w x) eqn:L1; [right; eapply maybe_sound; eauto; congruence|left; now apply Dc]. }
         rewrite (thaw_ext c _ Sa).
         set (fe := fun y => ebv (expr_bu ds g0 (merge x y) e)).
-        assert (Bd : forall y, In y B -> compatible x y = true ->
-                     forall w, In w (cert p1 ++ cert p2) -> lookup w (merge x y) <> None).
-        { intros y Iy Cy w Iw. rewrite lookup_merge by (apply WB, Iy).
-          apply in_app_or in Iw as [Iw|Iw].
-          - pose proof (cert_sound ds p1 S1 g0 x w Ix Iw). destruct (lookup w y); [discriminate|exact H].
-          - pose proof (cert_sound ds p2 S2 g0 y w Iy Iw). destruct (lookup w y); [discriminate|congruence]. }
         assert (F1' : forall y, In y B -> compatible y (merge c x) = true ->
                   ebv (expr_td ds g0 (forget (merge (merge c x) y) c None) (merge (merge c x) y) e) = fe y).
-        { intros y Iy Cy. assert (Wy := WB y Iy).
-          assert (Cxy : compatible x y = true).
-          { apply (compatible_spec _ _ Wx). apply compat_prop_sym.
-            apply (compatible_spec _ _ Wy) in Cy.
-            apply (compat_merge_iff y c x Wc Wx) in Cy; [apply Cy|].
-            apply compat_prop_sym. now apply (compatible_spec _ _ Wx). }
-          apply (lj_expr_agree ds g0 p1 p2 e _ _ _ Eo); [|now apply Bd].
-          intros w Iw. unfold forget. rewrite lookup_restrict. rewrite (Enp w Iw). cbn.
-          rewrite !lookup_merge by assumption. rewrite (Enp w Iw).
-          destruct (lookup w y); [reflexivity|]. destruct (lookup w x); reflexivity. }
+        { intros y Iy Cy. assert (Wy := WB y Iy). unfold fe. f_equal.
+          apply (expr_ok_agree ds g0 _ e _ _ Eo).
+          intros w Iw. unfold forget. rewrite lookup_restrict. cbn.
+          rewrite !lookup_merge by assumption.
+          destruct (lookup w c) as [u|] eqn:Lc; cbn.
+          - assert (Nm : ~ In w (maybe p1 ++ maybe p2)) by (apply Enp; [exact Iw|congruence]).
+            destruct (lookup w y) eqn:Ly.
+            + exfalso. apply Nm. apply in_or_app. right. apply (maybe_sound ds p2 S2 g0 y w Iy). congruence.
+            + destruct (lookup w x) eqn:Lx; [|reflexivity].
+              exfalso. apply Nm. apply in_or_app. left. apply (maybe_sound ds p1 S1 g0 x w Ix). congruence.
+          - destruct (lookup w y); [reflexivity|]. destruct (lookup w x); reflexivity. }
         assert (F2' : forall y, In y B -> compatible y x = true ->
                   ebv (expr_td ds g0 (merge x y) (merge x y) e) = fe y).
-        { intros y Iy Cy. apply (lj_expr_agree ds g0 p1 p2 e _ _ _ Eo); [reflexivity|].
-          apply Bd; auto. now rewrite compatible_sym by auto. }
+        { intros y Iy Cy. unfold fe. f_equal. apply (expr_ok_agree ds g0 _ e _ _ Eo). reflexivity. }
         destruct p1vars as [vs|].
         * (* the second evaluation under remember(p1._vars) *)
           apply andb_true_iff in Pv as [Mv Pp]. rewrite subsetv_in in Mv.
           assert (Rx : thaw c (remember (merge c x) vs) = x).
-          { rewrite remember_eq; auto.
-            - apply orb_true_iff in Pp as [E|Pp].
-              + assert (pushed = []) by (destruct pushed; [reflexivity|discriminate]). subst pushed.
-                rewrite (dom_in_nil c Dc). now destruct x.
-              + apply andb_true_iff in Pp as [_ Ne].
-                destruct (cert p1) as [|w0 r0] eqn:Ec; [discriminate|].
-                pose proof (cert_sound ds p1 S1 g0 x w0 Ix) as Nw. rewrite Ec in Nw. specialize (Nw (or_introl eq_refl)).
-                destruct x; [cbn in Nw; congruence|reflexivity].
+          { unfold thaw. apply remember_eq; auto.
             - intros w Hw. apply Mv. apply (maybe_sound ds p1 S1 g0 x w Ix Hw).
-            - intros w Iw Hc. apply orb_true_iff in Pp as [E|Pp].
+            - intros w Iw Hc. apply orb_true_iff in Pp as [E|Sv].
               + assert (pushed = []) by (destruct pushed; [reflexivity|discriminate]). subst pushed.
                 rewrite (dom_in_nil c Dc) in Hc. cbn in Hc. congruence.
-              + apply andb_true_iff in Pp as [Sv _]. rewrite subsetv_in in Sv.
+              + rewrite subsetv_in in Sv.
                 apply (cert_sound ds p1 S1 g0 x w Ix). apply Sv. unfold inter. apply filter_In. split; [exact Iw|].
                 apply memv_in, Dc, Hc. }
           rewrite Rx.
@@ -544,23 +533,16 @@ Section PD.
         apply (compatible_spec _ _ Wx) in H. congruence.
     - (* Filter *)
       apply andb_true_iff in F as [FO F]. unfold filter_ok in FO.
-      apply andb_true_iff in FO as [FO Fv]. apply andb_true_iff in FO as [Se Ce].
+      apply andb_true_iff in FO as [FO Vo]. apply andb_true_iff in FO as [Nis Eo].
+      apply negb_true_iff in Nis. subst nis.
       pose proof (frag_shape _ _ _ F) as S. cbn [eval_td eval_bu].
       rewrite <- (filter_join_ctx c
-                   (fun s => ebv (expr_td ds g0 (if nis then s else forget s c fvars) s e))
+                   (fun s => ebv (expr_td ds g0 (forget s c fvars) s e))
                    (fun m => ebv (expr_bu ds g0 m e))).
       + apply Permutation_filter'. apply (IHp pushed F g0 c Ng Wc Dc).
-      + intros m I Cm. assert (Wm := bu_wf ds p S g0 m I).
-        destruct (expr_safe_agree ds g0 (merge c m) e
-                    (if nis then merge c m else forget (merge c m) c fvars) m Se) as [b [T B]].
-        * intros v Iv. rewrite subsetv_in in Ce.
-          pose proof (cert_sound ds p S g0 m v I (Ce v Iv)) as Nn. split; [|exact Nn].
-          assert (Ls : lookup v (merge c m) = lookup v m).
-          { rewrite lookup_merge by exact Wm. destruct (lookup v m); [reflexivity|congruence]. }
-          destruct nis; [exact Ls|]. cbn in Fv. destruct fvars as [fv|]; [|discriminate].
-          unfold forget. rewrite lookup_restrict. rewrite subsetv_in in Fv.
-          rewrite (proj2 (memv_in v fv) (Fv v Iv)). exact Ls.
-        * rewrite T, B. reflexivity.
+      + intros m I Cm. assert (Wm := bu_wf ds p S g0 m I). f_equal.
+        apply (expr_ok_agree ds g0 _ e _ _ Eo).
+        apply (vis_lookup ds pushed fvars p e g0 c m S Vo Dc I Wm).
     - (* Union *)
       apply andb_true_iff in F as [F1 F2]. apply td_union; eauto.
     - (* Minus *)
@@ -639,79 +621,52 @@ Section PD.
              apply L in Hh. discriminate.
     - (* Extend *)
       apply andb_true_iff in F as [Eo F]. unfold extend_ok in Eo.
-      apply andb_true_iff in Eo as [Eo Xv]. apply andb_true_iff in Eo as [Eo Ce].
-      apply andb_true_iff in Eo as [Eo Se]. apply andb_true_iff in Eo as [Vp Vq].
-      apply negb_true_iff in Vp, Vq.
-      destruct xvars as [xv|]; [|discriminate]. rewrite subsetv_in in Ce, Xv.
+      apply andb_true_iff in Eo as [Eo Vo]. apply andb_true_iff in Eo as [Eo Se].
+      apply andb_true_iff in Eo as [Vp Vq]. apply negb_true_iff in Vp, Vq.
       pose proof (frag_shape _ _ _ F) as S. cbn [eval_td eval_bu].
       rewrite (IHp pushed F g0 c Ng Wc Dc).
       apply Permutation_refl'.
-      change (map (fun s => match expr_td ds g0 (forget s c (Some xv)) s e with
+      change (map (fun s => match expr_td ds g0 (forget s c xvars) s e with
                             | Some t => bind v t s | None => s end) (join_ctx c (eval_bu ds g0 p))
               = join_ctx c (map (ext_step ds g0 v e) (eval_bu ds g0 p))).
       apply map_join_ctx. intros m I. assert (Wm := bu_wf ds p S g0 m I).
       assert (Lvm : lookup v m = None).
       { destruct (lookup v m) eqn:L; [|reflexivity].
-        assert (In v (maybe p)) by (eapply maybe_sound; eauto; congruence). apply memv_in in H. congruence. }
+        assert (In v (maybe p)) by (apply (maybe_sound ds p S g0 m v I); congruence). apply memv_in in H. congruence. }
       assert (Lvc : lookup v c = None).
       { destruct (lookup v c) eqn:L; [|reflexivity].
         assert (In v pushed) by (apply Dc; congruence). apply memv_in in H. congruence. }
-      (* the value of the expression *)
-      assert (Ev : exists t, (forall s full, (forall w, In w (evars e) -> lookup w s = lookup w m) ->
-                                expr_td ds g0 s full e = Some t) /\ expr_bu ds g0 m e = Some t).
-      { assert (Bd : forall w, In w (evars e) -> lookup w m <> None).
-        { intros w Iw. eapply cert_sound; eauto. }
-        apply orb_true_iff in Se as [At|Sf].
-        - destruct e; try discriminate.
-          + destruct (lookup v0 m) as [t|] eqn:L; [|exfalso; apply (Bd v0); [now left|exact L]].
-            exists t. split; [|cbn; exact L]. intros s full H. cbn. rewrite H; [exact L|now left].
-          + exists t. split; [intros; reflexivity|reflexivity].
-        - destruct (expr_safe_agree ds g0 m e m m Sf) as [b [_ B]]; [intros w Iw; split; [reflexivity|now apply Bd]|].
-          exists (t_bool b). split; [|exact B]. intros s full H.
-          destruct (expr_safe_agree ds g0 full e s m Sf) as [b' [T' B']].
-          { intros w Iw. split; [now apply H|now apply Bd]. }
-          congruence. }
-      destruct Ev as [t [Etd Ebu]].
-      assert (Fm : ext_step ds g0 v e m = bind v t m) by (unfold ext_step; now rewrite Ebu, Lvm).
-      rewrite Fm. split.
-      + destruct (compatible m c) eqn:Cm.
-        * apply (compatible_spec _ _ (wf_bind v t m Wm)). apply compat_bind_intro; auto.
-          -- now apply (compatible_spec _ _ Wm).
-          -- intros w H. congruence.
-        * destruct (compatible (bind v t m) c) eqn:Cb; [|reflexivity].
-          apply (compatible_spec _ _ (wf_bind v t m Wm)) in Cb.
-          assert (compat_prop m c).
-          { eapply compat_sub_l; [|exact Cb]. intros w u H. rewrite lookup_bind.
-            destruct (N.eqb w v) eqn:E; [apply N.eqb_eq in E; subst; congruence|exact H]. }
-          apply (compatible_spec _ _ Wm) in H. congruence.
-      + intros Cm. rewrite Etd; [symmetry; now apply merge_bind_comm|].
-        intros w Iw. unfold forget. rewrite lookup_restrict.
-        rewrite (proj2 (memv_in w xv) (Xv w Iw)). cbn.
-        rewrite lookup_merge by exact Wm.
-        pose proof (cert_sound ds p S g0 m w I (Ce w Iw)). destruct (lookup w m); [reflexivity|congruence].
+      assert (Ev : expr_td ds g0 (forget (merge c m) c xvars) (merge c m) e = expr_bu ds g0 m e).
+      { apply (expr_ok_agree ds g0 _ e _ _ Se). apply (vis_lookup ds pushed xvars p e g0 c m S Vo Dc I Wm). }
+      unfold ext_step. rewrite Lvm. destruct (expr_bu ds g0 m e) as [t|] eqn:Eb.
+      + split.
+        * destruct (compatible m c) eqn:Cm.
+          -- apply (compatible_spec _ _ (wf_bind v t m Wm)). apply compat_bind_intro; auto.
+             ++ now apply (compatible_spec _ _ Wm).
+             ++ intros w H. congruence.
+          -- destruct (compatible (bind v t m) c) eqn:Cb; [|reflexivity].
+             apply (compatible_spec _ _ (wf_bind v t m Wm)) in Cb.
+             assert (compat_prop m c).
+             { eapply compat_sub_l; [|exact Cb]. intros w u H. rewrite lookup_bind.
+               destruct (N.eqb w v) eqn:E; [apply N.eqb_eq in E; subst; congruence|exact H]. }
+             apply (compatible_spec _ _ Wm) in H. congruence.
+        * intros Cm. rewrite Ev. symmetry. now apply merge_bind_comm.
+      + split; [reflexivity|]. intros Cm. now rewrite Ev.
     - (* Values *)
       rewrite td_values. reflexivity.
     - (* Graph *)
-      destruct g as [t|v]; apply andb_true_iff in F as [Fg F];
-        pose proof (frag_shape _ _ _ F) as S; cbn [eval_td eval_bu ctx_get].
-      + (* an IRI *)
-        fold names in Fg. unfold names in Fg. rewrite existsb_names in Fg.
-        destruct (existsb (fun ng : N * graph => N.eqb (fst ng) t) (ds_named ds)) eqn:Ex.
-        * apply (IHp pushed F _ c (named_graph_NoDup _ t graphs_ok) Wc Dc).
-        * cbn in Fg. rewrite (named_graph_absent _ _ Ex).
-          rewrite (IHp pushed F [] c (NoDup_nil _) Wc Dc), (needs_triple_empty ds p S Fg). reflexivity.
+      pose proof (frag_shape _ _ _ F) as S.
+      destruct g as [t|v]; cbn [eval_td eval_bu ctx_get].
+      + (* an IRI: nothing unless it names a graph of the dataset *)
+        destruct (existsb (fun ng : N * graph => N.eqb (fst ng) t) (ds_named ds)) eqn:Ex; [|reflexivity].
+        apply (IHp pushed F _ c (named_graph_NoDup _ t graphs_ok) Wc Dc).
       + (* a variable *)
         destruct (lookup v c) as [t|] eqn:Lv.
         * (* bound by the context *)
-          assert (Nt : needs_triple p = true).
-          { destruct (memv v pushed) eqn:M; [exact Fg|].
-            assert (In v pushed) by (apply Dc; congruence). apply memv_in in H. congruence. }
           rewrite join_ctx_flat_map.
           rewrite (flat_map_named _ (fun gr => join_ctx c (eval_bu ds gr p)) (ds_named ds) t names_nodup).
-          -- destruct (existsb (fun ng : N * graph => N.eqb (fst ng) t) (ds_named ds)) eqn:Ex.
-             ++ apply (IHp pushed F _ c (named_graph_NoDup _ t graphs_ok) Wc Dc).
-             ++ rewrite (named_graph_absent _ _ Ex).
-                rewrite (IHp pushed F [] c (NoDup_nil _) Wc Dc), (needs_triple_empty ds p S Nt). reflexivity.
+          -- destruct (existsb (fun ng : N * graph => N.eqb (fst ng) t) (ds_named ds)) eqn:Ex; [|reflexivity].
+             apply (IHp pushed F _ c (named_graph_NoDup _ t graphs_ok) Wc Dc).
           -- intros ng _ D. apply graph_bound_other with (t := t); auto. apply bu_wf, S.
           -- intros ng _ E. rewrite E. apply graph_bound_same; auto. apply bu_wf, S.
         * (* unbound: every named graph *)
